@@ -767,5 +767,20 @@ def check_lmtd_guard(ctx: CheckContext, p: Program, r: Resolver, rule: str = "LM
             ctx.ob(rule, f"{fi.qualname}:{pn}", fi.loc, ok,
                    "" if ok else f"logarithm of a ratio involving '{pn}' is not dominated by a guard raising on {pn} <= 0"
                                  + (f" (found weaker test: {'; '.join(weak)})" if weak else ""))
+        # callers must hand the refusing function the signed differences: |x| can never trip the `<= 0` refusal
+        if not missing:
+            for g in p.all_funcs:
+                if isinstance(g.node, ast.Lambda) or g is fi:
+                    continue
+                for c in body_nodes(g):
+                    if isinstance(c, ast.Call) and fi in r.resolve_call(g, c):
+                        for k, a in enumerate(c.args):
+                            pn = fi.pos_params[k] if k < len(fi.pos_params) else None
+                            if pn in log_params and isinstance(a, ast.Call) and (
+                                    (isinstance(a.func, ast.Name) and a.func.id == "abs") or
+                                    (isinstance(a.func, ast.Attribute) and a.func.attr in ("abs", "absolute", "fabs"))):
+                                ctx.ob(rule, f"{g.qualname}:{fi.name}.{pn}<-abs", f"{g.module.relpath}:{c.lineno}", False,
+                                       f"{g.name} passes `{ast.unparse(a)[:60]}` as '{pn}' of {fi.name}(): the magnitude is never <= 0 unless it is exactly 0, so the refusal of "
+                                       f"non-positive end differences (a temperature cross) can no longer fire and a finite LMTD is returned instead")
     ctx.info["lmtd_functions"] = n
     return n
